@@ -153,8 +153,9 @@ def cases_for(P, k, thorough):
     for order in ("asc", "desc"):
         if order == "desc" and not any(len(b) > 1 for b in rec["ops"] + orec["ops"]):
             continue
-        if order == "desc" and not thorough and k % 2:
-            continue                 # quick: the second dict order on every other history
+        light = not thorough and len(rec["ops"]) >= 3      # quick: lighter set on the (many) deepest histories
+        if order == "desc" and not thorough and k % (4 if light else 2):
+            continue                 # quick: the second dict order on every 2nd / 4th history
         rev = (lambda b: b[::-1]) if order == "desc" else (lambda b: b)
         ins = [["inputs", rev(b)] for b in rec["ops"]]
         outs = [["outputs", rev(b)] for b in orec["ops"]]
@@ -174,8 +175,8 @@ def cases_for(P, k, thorough):
             return c
 
         def sync_runs(prof, extra=True):
-            rs = [{"omit": o, "mode": "sync"} for o in _omits(prof)]
-            if extra:
+            rs = [{"omit": o, "mode": "sync"} for o in _omits(prof, cap=2 if light else 3)]
+            if extra and not (light and k % 2):
                 rs.append({"omit": [], "mode": "sync", "bind": k % P})
             return rs
 
@@ -187,7 +188,7 @@ def cases_for(P, k, thorough):
             yield case("func", prof, P, _interleave(k, [ins, outs, names]), sync_runs(prof) if full else sync_runs(prof, extra=False)[:2])
         if full:
             # other placements of the defaults: attributes only
-            for prof in (pl if rich else [pl[(k * 3 + j) % len(pl)] for j in range(1, 3)]):
+            for prof in (pl if rich else [pl[(k * 3 + j) % len(pl)] for j in range(1, 2 if light else 3)]):
                 if prof not in chosen:
                     yield case("func", prof, P, _interleave(k, [ins, outs, names]), [])
         # gates: inputs only
@@ -206,9 +207,9 @@ def cases_for(P, k, thorough):
                 runs = runs[k % 2: k % 2 + 1]        # auto-resolve and pause/resume alternate
             yield case("interrupt", prof, 1, _interleave(k, [ins, iouts, names]), runs)
         # constructor rename_inputs= carries the first batch
-        if full and rec["ops"] and (k % 2 == 0 or rich):
+        if full and rec["ops"] and (k % (4 if light else 2) == 0 or rich):
             prof = pl[(k + 5) % len(pl)]
-            kind = ("func", "route", "ifelse", "interrupt")[(k // 2) % 4]
+            kind = ("func", "route", "ifelse", "interrupt")[(k // 4) % 4]
             Q = {"func": P, "interrupt": 1}.get(kind, 0)
             osteps = {"func": outs, "interrupt": iouts}.get(kind, [])
             mode = "async" if kind == "interrupt" else "sync"
@@ -221,11 +222,11 @@ def cases_for(P, k, thorough):
             runs = sync_runs(prof) if full else sync_runs(prof, extra=False)[:3]
             if not rich and full:
                 runs = [r for r in runs if len(r["omit"]) != 1 or len(_omits(prof)) <= 2 or "bind" in r]
-            if j == 0 and full:
+            if j == 0 and full and not (light and k % 2 == 0):
                 runs.append({"omit": _omits(prof)[-1] if len(_omits(prof)) > 1 else [], "mode": "async"})
             yield case("graph", prof, P, _interleave(k + j, [ins, outs, names]), runs)
         if full:
-            others = gl if (rich and len(gl) <= 16) else [gl[(k * 7 + j * 5) % len(gl)] for j in range(2)]
+            others = gl if (rich and len(gl) <= 16) else [gl[(k * 7 + j * 5) % len(gl)] for j in range(1 if light else 2)]
             for prof in others:
                 if prof not in chosen:
                     yield case("graph", prof, P, _interleave(k, [ins, outs, names]), [])
@@ -341,8 +342,10 @@ def shrink(case, klass):
 
 def replay_all(ctx, hists, thorough, procs):
     global HISTS, INDEX
-    HISTS = {P: list(d.values()) for P, d in hists.items()}
-    INDEX = {P: {k: i for i, k in enumerate(d)} for P, d in hists.items()}
+    # canonical order (TLC's print order depends on worker scheduling): the rotation of profiles and
+    # partners by history index is then reproducible
+    HISTS = {P: [d[k] for k in sorted(d, key=lambda x: (len(d[x]["ops"]), x))] for P, d in hists.items()}
+    INDEX = {P: {_key(r["ops"]): i for i, r in enumerate(lst)} for P, lst in HISTS.items()}
     tasks = []
     for P, lst in HISTS.items():
         step = 150
@@ -496,11 +499,15 @@ def run(tier, seed):
     ctx = Ctx(PID, tier, seed, "model_checking")
     thorough = tier == "thorough"
     rng = random.Random(seed)
+    import time
     selftest(ctx)
+    t0 = time.time()
     hists, stats, gn, results = run_models(tier, seed)
+    t1 = time.time()
     for res in results:
         ctx.add_tlc(result=res)
     counts, mcount, keep, hist_hit = replay_all(ctx, hists, thorough, procs=min(16, tlc.NCPU))
+    t2 = time.time()
     report(ctx, mcount, keep, hist_hit)
     check_alpha(ctx, rng, thorough)
     some = HISTS[max(HISTS)][len(HISTS[max(HISTS)]) // 2]
@@ -516,8 +523,10 @@ def run(tier, seed):
         rule="every rename history (sequence of batches; batch = partial injective map on current names, result duplicate-free; swaps, rotations, chains through temporaries, re-use of earlier names) within (P,U,D) bounds "
              + ", ".join(f"{s['bounds']}{'+id' if s['identity_pairs'] else ''}{'~sim' if s['simulate'] else ''}" for s in stats)
              + " enumerated by TLC, replayed on func/route/ifelse/interrupt/graph/mapped-graph nodes; distinct = history (P, ops), non-trivial = at least two rename entries; plus alpha-renamed 2-3 node DAGs of C01's family",
-        exhaustive=not any(s["simulate"] for s in stats),
-        extra={"tlc_runs": stats, "replays_per_kind": counts, "model_counterexamples": gn})
+        exhaustive=False,   # histories: exhaustive within the bounds; (history x default/bind placement) rotates
+        extra={"histories_exhaustive_within_bounds": not any(s["simulate"] for s in stats), "tlc_runs": stats,
+               "replays_per_kind": counts, "model_counterexamples": gn,
+               "tlc_wall_s": round(t1 - t0, 1), "replay_wall_s": round(t2 - t1, 1)})
 
 
 def replay(path):
